@@ -109,6 +109,7 @@ struct State {
     next_pid: usize,
     junk: Vec<Vec<u8>>,
     seed: u64,
+    addr2obj: HashMap<usize, usize>,
 }
 
 thread_local! {
@@ -198,7 +199,22 @@ fn run_op(op: &Op, _in_dtor: bool) {
                     junk();
                     let id = num(a[1]);
                     let r = Rc::new(Node { id, canary: Cell::new(ALIVE), strong: RefCell::new(vec![]), weak: RefCell::new(vec![]) });
+                    ST.with(|s| s.borrow_mut().addr2obj.insert(Rc::as_ptr(&r) as usize, id));
                     put(a[2], H::Rc(r));
+                }
+                "links" => {
+                    let v = with_rc(a[1], |r| Rc::__verif_links(r));
+                    let mut items: Vec<String> = ST.with(|s| {
+                        let s = s.borrow();
+                        v.iter()
+                            .map(|(p, k, c)| {
+                                let o = s.addr2obj.get(&(*p as usize)).map(|x| x.to_string()).unwrap_or("?".to_string());
+                                format!("{}{}={}", ["F", "B", "L"][*k as usize], o, c)
+                            })
+                            .collect()
+                    });
+                    items.sort();
+                    out(format!("ret links {}", if items.is_empty() { "-".to_string() } else { items.join(",") }));
                 }
                 "clone" => {
                     let r = with_rc(a[1], |r| Rc::clone(r));
@@ -438,6 +454,11 @@ fn run_script(name: String, ops: Vec<Op>, seed: u64) {
         } else {
             format!("end handles={} extras={}", st_handles, extras)
         };
+        // drop whatever the script left behind while the thread locals are still alive
+        // (destructors log through OUT); a misbehaving teardown must not take the runner down
+        let old = ST.with(|s| std::mem::take(&mut *s.borrow_mut()));
+        let _ = catch_unwind(AssertUnwindSafe(move || drop(old)));
+        OUT.with(|o| o.borrow_mut().clear());
         (lines, leak_note)
     }).unwrap();
     println!("=== {}", name);
